@@ -5,7 +5,8 @@ EXPLANATION = ("Deductive: frame / read-set obligations of DefaultArgsParser dec
 LEVEL_NOTE = ("assumes: the format's query methods do not modify the format (bounded: listings compared); the history lemma (init + re-initialisation => every parse starts from the same state) is the standard induction over these frames, not a machine-checked lemma")
 from .C05_structural import structural  # noqa: F401
 from . import token_contracts as tc
-TARGETS = [tc.M_ARGV + ":ArgvArgs.__init__"]
+from . import C05_contracts as c5
+TARGETS = [tc.M_ARGV + ":ArgvArgs.__init__", {"qual": c5.M_CMD + ":Command.parse", "tag": "mode"}]
 LEMMAS = []
 try:
     from .C05_bounded import bounded, BOUNDED_RULE  # noqa: F401
